@@ -25,6 +25,10 @@ var reg = vk.Registry{"split": func(raw json.RawMessage) *vk.Violation {
 	var c splitk.Case
 	_ = json.Unmarshal(raw, &c)
 	return splitk.Boundaries(c, splitk.Run(c))
+}, "batchsplit": func(raw json.RawMessage) *vk.Violation {
+	var c splitk.Case
+	_ = json.Unmarshal(raw, &c)
+	return splitk.Boundaries(c, splitk.RunBatch(c))
 }}
 
 func TestReplay(t *testing.T) { vk.RunReplay(t, reg) }
@@ -46,6 +50,13 @@ func eval(t vk.TB, c splitk.Case, constructed bool) {
 	}
 	rec.Sample(c.Proto, map[string]any{"proto": c.Proto, "coding": c.Coding, "note": c.Note, "text_bytes": len(c.Text) / 2, "parts": len(r.Parts)})
 	rec.Report(t, "split", splitk.Boundaries(c, r))
+	if c.TextString() != "" {
+		rec.Eval()
+		if v := splitk.Boundaries(c, splitk.RunBatch(c)); v != nil {
+			v.Key = "batch:" + v.Key
+			rec.Report(t, "batchsplit", v)
+		}
+	}
 }
 
 func TestGrid(t *testing.T) {
